@@ -131,10 +131,23 @@ def obs_synset_x(wn, s):
             'depths': [s.min_depth(), s.max_depth()]}
 
 
+def _rnav(wn, t):
+    try:
+        y = t.synset()
+    except wn.Error:          # the synset of the target lies outside the selection
+        return [[_spec(t.lexicon()), t.id], ['', 'error'], []]
+    return [[_spec(t.lexicon()), t.id], _synref(y), [[_spec(m.lexicon()), m.id] for m in y.senses()]]
+
+
 def obs_sense_x(wn, s):
     return {'ref': [_spec(s.lexicon()), s.id],
             'get_related': [[_spec(t.lexicon()), t.id] for t in s.get_related()],
             'get_related_synsets': [_synref(t) for t in s.get_related_synsets()],
+            # what the synsets reached through sense→synset relations report in turn: they belong to the
+            # same Wordnet as the sense, so members and hypernyms are those of its selection (oracle only)
+            '_related_synsets_nav': [[_synref(t), [[_spec(m.lexicon()), m.id] for m in t.senses()],
+                                      [_synref(h) for h in t.hypernyms()]] for t in s.get_related_synsets()],
+            '_related_nav': [_rnav(wn, t) for t in s.get_related()],
             'closure': [[_spec(t.lexicon()), t.id] for t in s.closure()]}
 
 
@@ -199,6 +212,14 @@ def _obs_scope_x(wn, w):
     o['synsets_x'] = [obs_synset_x(wn, x) for x in w.synsets()]
     o['senses_x'] = [obs_sense_x(wn, x) for x in w.senses()]
     o['nav'] = obs_nav(wn, w)
+    # look-ups by word form inside the selection (oracle only): every entity returned is owned by the selection
+    forms = []
+    for x in w.words():
+        for f in x.forms()[:2]:
+            if str(f) not in forms:
+                forms.append(str(f))
+    o['_by_form'] = [[f, [[_spec(x.lexicon()), x.id] for x in w.words(f)], [[_spec(x.lexicon()), x.id] for x in w.senses(f)],
+                      [_synref(y) for y in w.synsets(f)]] for f in forms[:8]]
     return o
 
 
@@ -303,8 +324,11 @@ def canon_battery(b, sort_forms_tail=True):
     for x in b['scope'].get('senses_x', []):
         ys.append({'ref': x['ref'], 'get_related': sorted(x['get_related'], key=_k),
                    'get_related_synsets': sorted(x['get_related_synsets'], key=_k),
-                   'closure': sorted(x['closure'], key=_k)})
-    sc['senses_x'] = sorted(ys, key=_k)
+                   'closure': sorted(x['closure'], key=_k),
+                   '_nav': sorted([[t, sorted(ms, key=_k), sorted(hs, key=_k)] for t, ms, hs in x.get('_related_synsets_nav', [])], key=_k),
+                   '_rnav': sorted([[t, y, sorted(ms, key=_k)] for t, y, ms in x.get('_related_nav', [])], key=_k)})
+    sc['senses_x'] = sorted(ys, key=lambda x: _k({k: v for k, v in x.items() if not k.startswith('_')}))
+    sc['_by_form'] = [[f, sorted(a, key=_k), sorted(b_, key=_k), sorted(c, key=_k)] for f, a, b_, c in b['scope'].get('_by_form', [])]
     return {'S': b['S'], 'E': b['E'], 'missing': sorted(b['missing']), 'scope': sc}
 
 
